@@ -76,6 +76,9 @@ func DescribePanic(p interface{}) string {
 // the solo twin: status, body, headers as sent, the handler/writer event
 // trace and any panic that escaped.
 func (q *Req) Outcome() string {
+	if q.W == nil {
+		return "unserved"
+	}
 	var sb strings.Builder
 	sb.WriteString(itoa(q.W.Code))
 	sb.WriteString("|")
